@@ -72,7 +72,10 @@ namespace rkcommon {
         return tbb::global_control::active_value(
             tbb::global_control::max_allowed_parallelism);
 #elif defined(RKCOMMON_TASKING_OMP)
-        return omp_get_max_threads();
+        // NOTE: omp_set_num_threads() changed the setting of the thread that
+        //       called initTaskingSystem() only, omp_get_max_threads() of
+        //       another thread still gives the default
+        return numThreads > 0 ? numThreads : omp_get_max_threads();
 #elif defined(RKCOMMON_TASKING_INTERNAL)
         return detail::numThreadsTaskSystemInternal();
 #else
